@@ -428,6 +428,70 @@ def _track(stream: "SimTextIO", cur: List[int]) -> None:
     stream.on_cursor = lambda c: cur.__setitem__(0, c)
 
 
+_SNOOP: Dict[str, Any] = {}
+
+
+def preload_snoop_layer() -> None:
+    """The diagnostic layer the snoop tool decodes telegrams with (shipped example database)."""
+    if "layer" not in _SNOOP:
+        import os
+
+        import odxtools
+
+        from ..core import worker
+        with quiet():
+            db = odxtools.load_pdx_file(os.path.join(worker.repo_dir(), "examples", "somersault.pdx"))
+        _SNOOP["layer"] = db.ecus.somersault_lazy
+
+
+def feed_snoop(lines: Sequence[Tuple[str, Optional[int]]], monitored: List[int], strict: bool = True) -> EntryResult:
+    """The complete tool: `odxtools snoop` in passive mode reading a capture from stdin (snoop.passive_main with
+    its module globals set as snoop.run() sets them).  Telegrams are observed where the tool consumes them
+    (snoop.handle_telegram); what the tool prints is not judged here."""
+    import argparse
+
+    from odxtools.cli import snoop
+    import odxtools.exceptions as exc_mod
+    preload_snoop_layer()
+    res = EntryResult("snoop-passive" + ("" if strict else "-nostrict"))
+    old_strict = exc_mod.strict_mode
+    # `odxtools --no-strict snoop ...` runs the tool with the strict mode switched off
+    exc_mod.strict_mode = bool(strict)
+    stream = SimTextIO(lines)
+    orig = snoop.handle_telegram
+
+    def spy(telegram_id: int, payload: bytes) -> None:
+        res.reports.append((stream.cursor or 0, telegram_id, bytes(payload)))
+        orig(telegram_id, payload)
+
+    old_stdin = sys.stdin
+    snoop.odx_diag_layer = _SNOOP["layer"]
+    snoop.last_request = None
+    snoop.handle_telegram = spy  # type: ignore[assignment]
+    args = argparse.Namespace(rx=hex(monitored[0]), tx=hex(monitored[1]), channel=None)
+    try:
+        with quiet():
+            sys.stdin = stream  # type: ignore[assignment]
+            try:
+                coro = snoop.passive_main(args)
+                try:
+                    coro.send(None)
+                    coro.close()
+                    raise RuntimeError("snoop.passive_main(stdin) awaited something; expected to be synchronous")
+                except StopIteration:
+                    pass
+            except RuntimeError:
+                raise
+            except Exception as e:  # noqa: BLE001 - the oracle judges it
+                res.raised = (stream.cursor or 0, e)
+    finally:
+        sys.stdin = old_stdin
+        snoop.handle_telegram = orig  # type: ignore[assignment]
+        exc_mod.strict_mode = old_strict
+    res.fed = sum(1 for _, f in lines if f is not None)
+    return res
+
+
 def feed_bus(frames: Sequence[Tuple[int, bytes]], kind: str, monitored: List[int], tx_ids: List[int],
              clock: SimClock, padding: int = 0, gap: float = 0.0005) -> EntryResult:
     """read_telegrams(BusABC) on the virtual-time loop; the bus seam is the scheduler."""
